@@ -969,9 +969,9 @@ func TestVerif_C02(t *testing.T) {
 		t.Fatal("torsion constant is not a point of order 8")
 	}
 
-	ncand := r.N(1400, 14000)
-	tamperBudget := r.N(36000, 360000)
-	nbatch := r.N(1000, 10000)
+	ncand := r.N(1400, 28000)
+	tamperBudget := r.N(36000, 720000)
+	nbatch := r.N(1000, 20000)
 	accepted, acceptedAgg, acceptedDeep, forgedRejected, tampers := 0, 0, 0, 0, 0
 	for i := 0; i < ncand; i++ {
 		if len(wd.pool) < 12 {
